@@ -20,15 +20,19 @@ SUPPORT = {
     'C01': [('C07', ['C07.R6'], None,
              'a granted reservation is honoured only if its owner is the process that asked for it: the owner tag is taken at request time')],
     'C03': [('C02', ['C02.R1', 'C02.R5', 'C02.R7'], None,
-             'factory-wide conservation needs every store operation to be multiset-neutral and to hand out the item it removed')],
+             'factory-wide conservation needs every store operation to be multiset-neutral and to hand out the item it removed'),
+            ('C10', ['C10.R5'], None,
+             'every generated item ends up received or discarded only if no item is stranded: a conveyor whose process is never told of a transfer strands the items behind')],
     'C04': [('C13', ['C13.R2'], None,
              'a reservation waiting for the end of a belt travel is served only if the travel, resumed after a stall, ends at the computed instant')],
     'C06': [('C11', ['C11.R4'], None,
              'the retrieval order is the order of becoming ready: each delay timer promotes its own item')],
     'C08': [('C04', ['C04.R1'], None, 'an item leaves late only while no permitted out-edge can accept it: the waiting put reservation must be woken'),
             ('C11', ['C11.R1'], None, 'the node decides "able to accept" by can_put()'),
-            ('C11', ['C11.R5'], ('get_delay',), 'the delay is drawn exactly once per item only if every get_delay() call consults its source')],
-    'C09': [('C11', ['C11.R1'], None, 'push-or-drop is decided by can_put(): it must agree with the grant condition')],
+            ('C11', ['C11.R5'], ('get_delay',), 'the delay is drawn exactly once per item only if every get_delay() call consults its source'),
+            ('C10', ['C10.R1', 'C10.R2'], None, 'a reservation the node leaves behind on an out-edge occupies its slot for ever: later items are held although the edge is empty')],
+    'C09': [('C11', ['C11.R1'], None, 'push-or-drop is decided by can_put(): it must agree with the grant condition'),
+            ('C06', ['C06.R4'], ('reserve_put',), 'a blocking node waits until AN out-edge accepts: it waits on all its put reservations and takes the first granted')],
     'C10': [('C04', ['C04.R1'], None, 'work is taken / delivered at once only if the store wakes the waiting reservation at that instant'),
             ('C11', ['C11.R1'], None, 'the node decides "has room / has an item" by can_put() / can_get()')],
     'C11': [('C04', ['C04.R1'], None, 'can_get()/can_put() ≡ "granted immediately" presupposes that nothing servable is left waiting in front'),
@@ -41,10 +45,12 @@ SUPPORT = {
     'C15': [('C06', ['C06.R4'], None, 'FIRST_AVAILABLE on the input side means the first granted token'),
             ('C11', ['C11.R1'], None, 'FIRST_AVAILABLE on the output side chooses by can_put()')],
     'C16': [('C02', ['C02.R1', 'C02.R5'], None, 'the pallet / the packed items are the objects the stores handed out'),
-            ('C03', ['C03.R1'], ('nodes/splitter.py', 'nodes/combiner.py'), 'every item taken by a splitter / combiner is emitted or packed on every path')],
+            ('C03', ['C03.R1'], ('nodes/splitter.py', 'nodes/combiner.py'), 'every item taken by a splitter / combiner is emitted or packed on every path'),
+            ('C11', ['C11.R1'], None, 'a non-blocking splitter emits exactly what can_put() lets through')],
     'C20': [('C01', ['C01.O0', 'C01.O1'], None, 'stores raise RuntimeError on overflow: a grant beyond capacity crashes the run'),
             ('C06', ['C06.R4'], None, 'a node that finds no granted token after its wait raises'),
-            ('C15', ['C15.R7'], None, 'a selector wired to the wrong side yields an out-of-range index (AssertionError)')],
+            ('C15', ['C15.R7', 'C15.R10'], None, 'a selector wired to the wrong side yields an out-of-range index; an edge registered twice makes the '
+                                                  'nodes\' own edge-index consistency assertion fail (AssertionError escapes run())')],
 }
 
 
